@@ -401,6 +401,7 @@ def plan(tier):
         P.append(("w2-n2", 2, 2, False, None, 0))
         P.append(("w3-n1-thr8", 3, 1, True, None, 8))
         P.append(("w8-n1-thr2", 8, 1, True, None, 2))
+        P.append(("w8-multipart", 8, 2, False, "multipart", 0))
     else:
         for W in (1, 2, 3, 4, 8):
             P.append(("w%d-n1" % W, W, 1, True, None, 0))
@@ -411,14 +412,51 @@ def plan(tier):
         P.append(("w3-n3-reassoc", 3, 3, False, "reassoc", 0))
         P.append(("w3-n2-thr8", 3, 2, False, None, 8))
         P.append(("w8-n1-thr2", 8, 1, True, None, 2))
+        P.append(("w8-multipart", 8, 2, True, "multipart", 0))
     return P
 
 
 REASSOC_OPS = set(["+", "-", "&", "|", "^", "x"])
 
 
+MULTI_PARTITIONS = [(2, 3, 3), (1, 2, 5), (4, 2, 2), (3, 4, 1), (1, 1, 6), (2, 2, 2, 2), (1, 3, 1, 3)]
+MULTI_CONSTS = [0x00, 0xFF, 0x5A, 0xA5, 0x81, 0x3C, 0x12, 0xE7]
+
+
+def multipart_trees(W, full):
+    """compositions of 3 and 4 parts (register slices, narrower registers, constants), alone and as an operand of
+    & | ^ + - with a constant (both orders), under ~ and unary -, and every slice of them"""
+    assert W == 8
+    out = []
+    for parts in MULTI_PARTITIONS:
+        choices = []
+        off = 0
+        for k, w in enumerate(parts):
+            choices.append([["x", ["r", "a", W], off, off + w], ["x", ["r", "b", W], 0, w], ["c", (0xAA >> (k & 1)) & ((1 << w) - 1), w]])
+            off += w
+        for sel in itertools.product(range(3), repeat=len(parts)):
+            if not full and len(parts) == 4 and sum(1 for x in sel if x == 2) > 1:
+                continue
+            comp = ["k", [choices[i][x] for i, x in enumerate(sel)]]
+            out.append(comp)
+            for op in ("&", "|", "^", "+", "-"):
+                for v in MULTI_CONSTS:
+                    out.append(["b", op, comp, ["c", v, W]])
+                    if full or op == "-":
+                        out.append(["b", op, ["c", v, W], comp])
+            out.append(["u", "~", comp])
+            out.append(["u", "-", comp])
+            for i in range(W):
+                for j in range(i + 1, W + 1):
+                    if (i, j) != (0, W) and (full or (i + j) % 2 == 0 or j - i == 1):
+                        out.append(["x", comp, i, j])
+    return out
+
+
 def trees_of(W, n, full, opsel):
     ops = None
+    if opsel == "multipart":
+        return multipart_trees(W, full)
     if opsel == "reassoc":
         ops = set(["+", "-", "&", "|", "^", "x", "~"])
         en = X.Enum(W, ops=ops, widths=[W])
